@@ -25,6 +25,15 @@ def obligation(oid, props, units, title, tier="P", known=None):
     return deco
 
 
+class LeanCheck:
+    """an obligation discharged by the Lean 4 kernel: `lean <file>` must accept every theorem of the file.
+    thorough tier: re-checked from source.  quick tier: the file's sha256 must equal the one recorded by the last
+    successful thorough run (lean/checked.json) - cold Mathlib start-up (~2 min) does not fit the quick budget."""
+
+    def __init__(self, path, theorems):
+        self.path, self.theorems = path, theorems
+
+
 class Bounded:
     def __init__(self, bid, props, title, fn, bound):
         self.id, self.props, self.title, self.fn, self.bound = bid, props, title, fn, bound
